@@ -36,6 +36,7 @@ pub struct Ufo {
     pub layers: Vec<LayerU>,
     pub data: Vec<String>,
     pub images: Vec<String>,
+    pub anomaly: u8, // 0 none; 1 duplicate layer name; 2 duplicate layer directory; 3 reserved name; 4 nested glif path; 5 two glyphs one file
     pub data_is_file: bool,   // `data` is a plain file (listing fails when requested)
     pub images_subdir: bool,  // a directory inside images (refused when requested)
 }
@@ -70,6 +71,7 @@ pub fn gen_ufo(r: &mut Rng, valid_only: bool) -> Ufo {
         layers: vec![],
         data: vec![],
         images: vec![],
+        anomaly: 0,
         data_is_file: false,
         images_subdir: false,
     };
@@ -108,6 +110,39 @@ pub fn gen_ufo(r: &mut Rng, valid_only: bool) -> Ufo {
         glyphs.sort();
         let info = if r.chance(1, 2) { next() } else { 0 };
         u.layers.push(LayerU { name: n, written: d.clone(), dir: d, glyphs, info });
+    }
+    if !valid_only && r.chance(1, 3) {
+        // entries the loader must refuse, in its order of checks
+        u.anomaly = 1 + r.below(5) as u8;
+        match u.anomaly {
+            1 => {
+                let n = u.layers[0].name.clone();
+                u.layers.push(LayerU { name: n, dir: "glyphs.dup".into(), written: "glyphs.dup".into(), glyphs: vec![], info: 0 });
+            }
+            2 => {
+                let mut l = u.layers[r.below(u.layers.len() as u64) as usize].clone();
+                l.name = "same directory".into();
+                u.layers.push(l);
+            }
+            3 => {
+                let k = u.layers.len() - 1;
+                if u.layers[k].dir != "glyphs" {
+                    u.layers[k].name = "public.default".into();
+                } else {
+                    u.layers.push(LayerU { name: "public.default".into(), dir: "glyphs.pd".into(), written: "glyphs.pd".into(), glyphs: vec![], info: 0 });
+                }
+            }
+            4 => {
+                let k = r.below(u.layers.len() as u64) as usize;
+                u.layers[k].glyphs.push(("zz".into(), "sub/zz.glif".into(), next()));
+            }
+            _ => {
+                let k = r.below(u.layers.len() as u64) as usize;
+                let id = next();
+                u.layers[k].glyphs.push(("y1".into(), "shared.glif".into(), id));
+                u.layers[k].glyphs.push(("y2".into(), "shared.glif".into(), id));
+            }
+        }
     }
     if r.chance(2, 3) && !u.data_is_file {
         for k in ["a.txt", "d/e.bin", "d/f/g"] {
@@ -185,7 +220,7 @@ pub fn files(u: &Ufo) -> Vec<(String, Option<(Vec<u8>, String)>)> {
         let mut cg = vec![];
         for (gn, gf, _) in &l.glyphs {
             let _ = write!(c, "<key>{}</key><string>{}</string>\n", gn, gf);
-            cg.push(format!("({},[Normal {}])", gq(gn), gq(gf)));
+            cg.push(format!("({},{})", gq(gn), grel_text(gf)));
         }
         c.push_str("</dict>\n");
         f(format!("{}/contents.plist", l.dir), pl(&c), format!("LContents [{}]", cg.join(";")));
@@ -267,7 +302,8 @@ fn grel_text(w: &str) -> String {
     }
     format!("[{}]", v.join(";"))
 }
-/// the class of finding F23: a default layer directory that is not written exactly `glyphs`
+/// the former finding F23 (fixed by 8d15b4b): a default layer directory that is not written
+/// exactly `glyphs`; such a UFO must now be refused by every load
 pub fn class_f23(u: &Ufo) -> bool {
     u.layers.iter().any(|l| Path::new(&l.written).file_name().map(|f| f == "glyphs").unwrap_or(false) && l.written != "glyphs")
 }
@@ -417,12 +453,16 @@ pub fn dump(f: &Font) -> String {
     let mut layers = vec![];
     for l in f.layers.iter() {
         let mut gl = vec![];
+        let mut fl = vec![];
         for g in l.iter() {
             gl.push(format!("({},{})", gq(g.name()), g.width as u64));
+            if let Some(p) = l.get_path(g.name()) {
+                fl.push(grel_text(&p.to_string_lossy()));
+            }
         }
         let info = if l.lib.is_empty() && l.color.is_none() { 0 } else { int_of(l.lib.get("tok")) };
         let d = l.path().to_string_lossy().to_string();
-        layers.push(format!("LLayer {} [Normal {}] {} [{}] {}", gq(l.name()), gq(&d), gq(&d), gl.join(";"), info));
+        layers.push(format!("LLayer {} [Normal {}] {} [{}] [{}] {}", gq(l.name()), gq(&d), gq(&d), gl.join(";"), fl.join(";"), info));
     }
     let keys = |ks: Vec<&PathBuf>| {
         let mut v: Vec<String> = ks.iter().map(|k| k.to_string_lossy().to_string()).collect();
@@ -456,6 +496,10 @@ pub fn gerr(e: &FontLoadError) -> (String, String) {
         FontLoadError::FeatureFile(_) => "FeatureFileL".into(),
         FontLoadError::MissingLayerContentsFile => "MissingLayerContentsFile".into(),
         FontLoadError::MissingDefaultLayer => "MissingDefaultLayer".into(),
+        FontLoadError::InvalidLayerDirectory { name, .. } => format!("(InvalidLayerDirectory {})", gq(name)),
+        FontLoadError::DuplicateLayerName(name) => format!("(DuplicateLayerName {})", gq(name)),
+        FontLoadError::DuplicateLayerDirectory(_) => "DuplicateLayerDirectory".into(),
+        FontLoadError::ReservedLayerName => "ReservedLayerName".into(),
         FontLoadError::DataStore(_) => "DataStoreL".into(),
         FontLoadError::ImagesStore(_) => "ImagesStoreL".into(),
         FontLoadError::Layer { name, source, .. } => {
@@ -464,6 +508,8 @@ pub fn gerr(e: &FontLoadError) -> (String, String) {
                 LayerLoadError::ParsePlist { name: "contents.plist", .. } => "LParseContents",
                 LayerLoadError::ParsePlist { name: "layerinfo.plist", .. } => "LParseLayerInfo",
                 LayerLoadError::Glyph { .. } => "LGlyph",
+                LayerLoadError::InvalidGlyphFileName { .. } => "LInvalidGlyphFileName",
+                LayerLoadError::DuplicateGlyphFileName(_) => "LDuplicateGlyphFileName",
                 _ => return ("OOther".into(), "Layer(other)".into()),
             };
             format!("(LayerL {} {})", gq(name), le)
@@ -671,7 +717,7 @@ pub fn main(a: &Args) {
                 row_no += 1;
                 let _ = writeln!(
                     json,
-                    "{{\"case\":{},\"ufo\":{},\"class_f23\":{},\"mask\":{},\"shape\":{},\"pristine\":{},\"corrupted\":{},\"damaged\":{},\"n_unrequested\":{},\"full_ok\":{},\"oracle_ok\":{},\"why\":{}}}",
+                    "{{\"case\":{},\"ufo\":{},\"must_be_rejected\":{},\"mask\":{},\"shape\":{},\"pristine\":{},\"corrupted\":{},\"damaged\":{},\"n_unrequested\":{},\"full_ok\":{},\"oracle_ok\":{},\"why\":{}}}",
                     this,
                     ui,
                     class_f23(&u),
